@@ -94,6 +94,9 @@ def seeds(tier):
                 out.append(("cond", {key: vals[2]}, (cls, call)))
     out.append(("cond", {"and": [{"value.lt": 3}, {"or": [{"value.in": [1, {"path": ["a"]}]}, {"value.dtype.eq": "int"}]}]}, None))
     out.append(("cond", {"xor": [{"key.eq": "a"}, {}]}, None))
+    out.append(("cond", {"value.in": [{"path": ["a"]}, 2]}, ("Value", "in_")))
+    out.append(("cond", {"value.in_range": {"lower": 0, "upper": {"path.first": [{"type": "map_value"}, "hi"]}}}, ("Value", "in_range")))
+    out.append(("cond", {"value.equal_to": {"path": ["a", 0]}}, ("Value", "equal_to")))
     out.append(("cond", {"value.items_contain": {"a": {"path.length": ["b", {"type": "list_value"}]}}}, ("Value", "items_contain")))
     # parts, paths, rules, schemas
     for p in gen.PARTS + c10.LABELLED:
@@ -186,6 +189,21 @@ def definite_errors(kind, spec, info):
         # two keys where one is required
         out.append(("two-keys", {key: val, ("value.truthy" if key != "value.truthy" else "value.falsy"): None}))
         out.append(("two-keys", {key: val, "and": []}))
+    if kind in ("cond", "rule"):
+        # a data path spec nested in a condition argument (recognised by its valid 'path..' key) with a malformed part
+        for pos in positions(spec):
+            node = get_at(spec, pos)
+            if (pos and isinstance(node, dict) and len(node) == 1 and isinstance(next(iter(node)), str)
+                    and next(iter(node)).split(".")[0] == "path" and isinstance(next(iter(node.values())), list)
+                    and any(p[0] == "k" and isinstance(p[1], str) and p[1].split(".")[0] in ("value", "key", "index", "condition")
+                            for p in pos)):
+                k = next(iter(node))
+                for cls_, badpart in (("unknown-part-type", {"type": "bogus_value"}),
+                                      ("unknown-part-argument", {"type": "map_value", "foo": 1}),
+                                      ("inapplicable-part-argument", {"type": "map_value", "index": {"index.eq": 0}}),
+                                      ("wrong-kind-condition", {"type": "list_value", "value": {"key.eq": "a"}})):
+                    out.append(("nested-path:" + cls_, rebuild(spec, pos, lambda x, k=k, b=badpart: {k: list(c16.copy_spec(x[k])) + [b]})))
+                out.append(("nested-path:non-list-parts", rebuild(spec, pos, lambda x, k=k: {k: 5})))
     if kind == "cond" and info is None:
         (key, val), = spec.items()
         for bad in (1, "a", {"value.lt": 1}, None and 0):
